@@ -264,3 +264,87 @@ def tag(x):
     if isinstance(x, int):
         return 'i:' + str(x)
     return 's:' + str(x)
+
+
+# ---------------------------------------------------------------------------------------------------------------------
+# placement of a freshly parsed fragment (fst_put_one._make_exprlike_fst): real replace of an unparenthesized expression by
+# a call; the positions of the new node and its children vs the model (parse of the fragment at the origin, placed)
+
+PLACE_CODES = ['nf(p1, p2)', 'ñf("é", p2)', 'nf(p1,\n   p2)', 'nf("日本"\n, ü=p2)']
+
+
+def place_cases(arg):
+    """(src, seed, per) -> [(case, impl, multibyte_before)]"""
+    import ast
+    import c04_oracle as co
+    from fst import FST
+    src, seed, per = arg
+    rng = random.Random(seed)
+    if rng.random() < 0.7:
+        src = co.add_multibyte_prefix(src, rng)
+    try:
+        tree = ast.parse(src)
+        tg = co.expr_targets(tree)
+    except Exception:
+        return []
+    lines = src.split('\n')
+    rng.shuffle(tg)
+    tg.sort(key=lambda t: lines[t[3].lineno - 1].encode()[:t[3].col_offset].isascii())
+    out = []
+    stmt_of = {}
+    for st in ast.walk(tree):
+        if isinstance(st, ast.stmt):
+            for n in ast.walk(st):
+                stmt_of.setdefault(id(n), st) if not isinstance(n, ast.stmt) or n is st else None
+    for path, pkind, fld, c in tg[:per * 3]:
+        if len(out) >= per:
+            break
+        s, e = co._span(lines, c)
+        # plain targets only: no own parentheses around the element (then the put span is the ast span)
+        before = lines[s[0]][:s[1]].rstrip()
+        after = lines[e[0]][e[1]:].lstrip()
+        if before.endswith('(') and after.startswith(')'):
+            continue
+        code = rng.choice(PLACE_CODES)
+        cl = code.split('\n')
+        # continuation lines of the fragment are indented with the block indentation of the enclosing statement
+        st = None
+        for cand in ast.walk(tree):
+            if isinstance(cand, ast.stmt) and (cand.lineno, cand.col_offset) <= (c.lineno, c.col_offset) and \
+                    (cand.end_lineno, cand.end_col_offset) >= (c.end_lineno, c.end_col_offset):
+                if st is None or (cand.lineno, cand.col_offset) >= (st.lineno, st.col_offset):
+                    st = cand
+        if st is None:
+            continue
+        l0 = lines[st.lineno - 1]
+        indent = l0[:len(l0) - len(l0.lstrip())]
+        put = [cl[0]] + [indent + x for x in cl[1:]]
+        frag = ast.parse(code, mode='eval').body
+        fnodes = [n for n in ast.walk(frag) if hasattr(n, 'end_col_offset')]
+        ib = len(indent.encode())
+        pts = []
+        for n in fnodes:
+            pts.append([n.lineno - 1, n.col_offset + (ib if n.lineno > 1 else 0)])
+            pts.append([n.end_lineno - 1, n.end_col_offset + (ib if n.end_lineno > 1 else 0)])
+        case = {'f': 'C04.place', 'lines': lines, 'put': put, 'a': [s[0], s[1], e[0], e[1]], 'pts': pts}
+        try:
+            root = FST(src, 'exec')
+            f = root
+            for name, i in path:
+                f = getattr(f.a, name).f if i is None else getattr(f.a, name)[i].f
+            f.replace(code, raw=False)
+            f = root
+            for name, i in path:
+                f = getattr(f.a, name).f if i is None else getattr(f.a, name)[i].f
+            rnodes = [n for n in ast.walk(f.a) if hasattr(n, 'end_col_offset')]
+            if [type(n).__name__ for n in rnodes] != [type(n).__name__ for n in fnodes]:
+                continue
+            placed = []
+            for n in rnodes:
+                placed.append([n.lineno - 1, n.col_offset])
+                placed.append([n.end_lineno - 1, n.end_col_offset])
+            impl = {'lines': [str(l) for l in root._lines], 'placed': placed}
+        except Exception:
+            continue
+        out.append((case, impl, not lines[s[0]][:s[1]].isascii()))
+    return out
